@@ -299,6 +299,90 @@ fn check_server(t1: &str, t2: Option<&str>, edits: Option<(u32, u32)>, r: &mut C
     });
 }
 
+/// Comment lines over the conversion alphabet (no line breaks inside a line).
+fn comment_prefix(tape: &mut Tape) -> String {
+    const IN_LINE: [&str; 8] = ["a", "\u{e9}", "\u{20ac}", "\u{1F600}", " ", "x", "\u{4e2d}", "\u{1F980}"];
+    let lines = tape.range(0, 4);
+    let mut s = String::new();
+    for _ in 0..lines {
+        s.push_str("// ");
+        for _ in 0..tape.range(0, 12) {
+            s.push_str(tape.pick(&IN_LINE));
+        }
+        s.push_str(if tape.chance(1, 2) { "\r\n" } else { "\n" });
+    }
+    s
+}
+
+/// The definition door: a location in ANOTHER document. main.oal uses `m.x` from mod.oal; both
+/// start with different comment lines, so that a range computed in the wrong text shows. The
+/// answer must be the one location whose range selects the declaration in mod.oal's text.
+fn check_definition(main_prefix: &str, mod_prefix: &str, r: &mut CaseReport) {
+    use crate::lspc::LspError;
+    let main_text = format!("{main_prefix}use \"mod.oal\" as m ;\nlet y = m.x ;\nres / on get -> < y > ;\n");
+    let mod_text = format!("{mod_prefix}let x = str ;\n");
+    SERVER.with(|cell| {
+        let mut cell = cell.borrow_mut();
+        if cell.is_none() {
+            let dir = crate::lspc::Scratch::new("c16lsp");
+            dir.write("oal.toml", "[api]\nmain = \"main.oal\"\ntarget = \"out.yaml\"\n");
+            dir.write("main.oal", "res / on get -> <>;\n");
+            match crate::lspc::Lsp::start(&dir.path) {
+                Ok(mut lsp) => {
+                    let uri = dir.uri("main.oal");
+                    let _ = lsp.did_open(&uri, "res / on get -> <>;\n");
+                    *cell = Some((dir, lsp));
+                }
+                Err(e) => {
+                    r.fail(Failure::new("lsp:cannot-start", format!("{e:?}")));
+                    return;
+                }
+            }
+        }
+        let (dir, lsp) = cell.as_mut().unwrap();
+        let (uri, mod_uri) = (dir.uri("main.oal"), dir.uri("mod.oal"));
+        dir.write("mod.oal", &mod_text);
+        let at = main_text.find("m.x").unwrap() + 2;
+        let pos = crate::lspcheck::pos_of(&main_text, at);
+        // The module may be cached from an earlier case: open it with its new text, as an editor would.
+        let res = lsp
+            .did_open(&mod_uri, &mod_text)
+            .and_then(|_| lsp.did_change(&uri, &[(None, main_text.clone())]))
+            .and_then(|_| lsp.position_request("textDocument/definition", &uri, pos, json!({})));
+        let answer = match res {
+            Ok(v) => v,
+            Err(LspError::Died(status, stderr)) => {
+                let site = crate::props::c04::panic_site(&stderr);
+                r.fail(Failure::new(if site.contains(".rs:") { format!("panic:{site}") } else { format!("lsp:{status}:{site}") }, format!("oal-lsp died ({status}) on a definition request")));
+                *cell = None;
+                return;
+            }
+            Err(LspError::Timeout) => {
+                r.label("lsp-timeout-inconclusive");
+                *cell = None;
+                return;
+            }
+            Err(LspError::Protocol(m)) => {
+                r.fail(Failure::new("lsp:protocol", m));
+                *cell = None;
+                return;
+            }
+        };
+        let _ = lsp.did_close(&mod_uri);
+        let start = mod_text.find("let x").unwrap();
+        let want = crate::lspcheck::range_of(&mod_text, (start, mod_text.rfind(';').unwrap() + 1));
+        let got = crate::lspcheck::definition_locations(&answer);
+        r.evaluations = 1;
+        if got.len() != 1 || got[0].1 != want || !got[0].0.ends_with("mod.oal") {
+            r.fail(Failure::new(
+                "c16:definition-range",
+                format!("go-to-definition on `m.x` must answer mod.oal {want:?} (which selects `let x = str ;` in the text of mod.oal); the server answers {got:?}"),
+            ));
+            *cell = None;
+        }
+    });
+}
+
 /// A text for the server door: mostly oal-like lines (so that spans of several kinds of syntax
 /// errors arise) mixed with the units of the conversion alphabet.
 fn server_text(tape: &mut Tape) -> String {
@@ -366,6 +450,23 @@ impl Property for C16 {
     }
     fn run_case(&self, tape: &mut Tape, ctx: &CaseCtx) -> CaseReport {
         let space = seq_space(6, max_len(ctx.tier));
+        if ctx.index >= space + n_random(ctx.tier) && tape.chance(1, 4) {
+            let (a, b) = (comment_prefix(tape), comment_prefix(tape));
+            let mut r = CaseReport::default();
+            r.hash = {
+                use std::hash::{Hash, Hasher};
+                let mut h = std::collections::hash_map::DefaultHasher::new();
+                (&a, &b, 2u8).hash(&mut h);
+                h.finish()
+            };
+            check_definition(&a, &b, &mut r);
+            r.label("server-door:definition-in-another-document");
+            r.nontrivial = a != b && (a.chars().any(|c| c.len_utf8() > 1) || b.chars().any(|c| c.len_utf8() > 1));
+            if ctx.want_rendered || r.failure.is_some() {
+                r.rendered = Some(json!({"server": true, "definition": [a, b]}));
+            }
+            return r;
+        }
         if ctx.index >= space + n_random(ctx.tier) {
             let t1 = if tape.chance(1, 4) { random_text(tape) } else { server_text(tape) };
             let t2 = if tape.chance(2, 3) { Some(if tape.chance(1, 4) { random_text(tape) } else { server_text(tape) }) } else { None };
@@ -420,6 +521,14 @@ impl Property for C16 {
         r
     }
     fn replay(&self, case: &Value) -> Option<Result<(), Failure>> {
+        if let Some(d) = case.get("definition").and_then(|d| d.as_array()) {
+            let mut r = CaseReport::default();
+            check_definition(d.first()?.as_str()?, d.get(1)?.as_str()?, &mut r);
+            return Some(match r.failure {
+                Some(f) => Err(f),
+                None => Ok(()),
+            });
+        }
         if case.get("server").is_some() {
             let mut r = CaseReport::default();
             let edits: Option<(u32, u32)> = case.get("edits").and_then(|e| serde_json::from_value(e.clone()).ok()).flatten();
